@@ -377,6 +377,58 @@ def fam_exhaustive(tier, tag, variants=("plain", "backing", "special"), depth=No
     return out
 
 
+_EXHP = {}
+
+
+def _exh_images():
+    D = lambda g, kind, wid: {"g": g, "kind": kind, "wid": wid}
+    base = {"cb": 10, "ro": 4, "vclusters": 4, "shuffle": 0, "holes": 0}
+    return {
+        "plain": [{"kind": "build", "desc": dict(base, clusters=[D(0, "data", 1), D(2, "data", 1)])}],
+        "backing": [{"kind": "build", "desc": dict(base, clusters=[D(1, "zero", 1)])},
+                    {"kind": "build", "desc": dict(base, clusters=[D(0, "data", 2), D(1, "data", 2), D(2, "data", 2), D(3, "data", 2)])}],
+        "special": [{"kind": "build", "desc": dict(base, clusters=[D(0, "comp", 1), D(1, "zero_prealloc", 1), D(2, "data", 1)])}],
+    }
+
+
+def _exh_step(o):
+    g, part = o["g"], o["part"]
+    if o["op"] in ("w", "d"):
+        gb, n = {"full": (g * 2, 2), "head": (g * 2, 1), "tail": (g * 2 + 1, 1), "both": (0, 4)}[part]
+        return {"op": "write" if o["op"] == "w" else "discard", "gb": gb, "n": n}
+    return {"op": {"f": "flush", "s": "fsync", "k": "shrink", "r": "reopen"}[o["op"]]}
+
+
+def _exh_code(ops):
+    return "".join(o["op"] + (str(o["g"]) + o["part"][0] if o["op"] in "wd" else "") for o in ops)
+
+
+def fam_exhaustive_par(tier, tag, variants=("plain", "backing", "special"), parn=None, seeds=(1, 2), sweep=0, sample=None, seed=1):
+    """concurrent small scope (spec/GenOps.tla, EmitPar): every multiset of two
+    (thorough: also three) overlapping operations on two guest clusters, after
+    every single-operation prefix, on three image variants, under several
+    schedule seeds"""
+    out = []
+    geo = dict(cb=10, ro=4, bsb=9, vclusters=4, params={"l2": [9, 1024], "rb": [9, 1024]})
+    imgs = _exh_images()
+    rd = {"op": "read", "gb": 0, "n": 8}
+    rng = random.Random(seed * 7 + 5)
+    for pn in ([2] if tier == "quick" else [2, 3]) if parn is None else [parn]:
+        if pn not in _EXHP:
+            _EXHP[pn] = Q.tlc_enumerate("GenOps.tla", cfg="GenOpsPar.cfg", env={"DEPTH": "0", "PARN": str(pn)}, workers=1, timeout=1800)[0]
+        hs = _EXHP[pn]
+        if sample and len(hs) > sample:
+            hs = rng.sample(hs, sample)
+        for v in variants:
+            for h in hs:
+                steps = [_exh_step(o) for o in h["pre"]] + [{"op": "par", "ops": [_exh_step(o) for o in h["par"]]}]
+                steps += [rd, {"op": "flush"}, {"op": "fsync"}, rd, {"op": "reopen"}, rd]
+                for sd in seeds:
+                    out.append(S.mk(f"{tag}-{v}-{_exh_code(h['pre'])}_{_exh_code(h['par'])}-s{sd}", geo, imgs[v], steps, sample_flag=True,
+                                    sched={"policy": "random" if sd % 2 else "pct", "seed": sd * 7919 + seed}, sched_sweep=sweep))
+    return out
+
+
 def fam_cowread(tier, seed, tag, nruns):
     """reads overlapping copy-on-write in time: partial writes over backing /
     compressed clusters with concurrent reads of the same and neighbouring clusters"""
@@ -789,6 +841,7 @@ def check_C04(chk):
     scens += fam_backing(chk.tier, chk.seed, "c04b", n // 3, 10)
     scens += fam_conc_disjoint(chk.tier, chk.seed, "c04c", 40 if chk.tier == "quick" else 600)
     scens += fam_exhaustive(chk.tier, "c04e", seed=chk.seed)
+    scens += fam_exhaustive_par(chk.tier, "c04p", seed=chk.seed)
     scens += fam_regress()
     res, st = Q.run_batch(scens, chk.wd, mode="crash", known=chk.known_tags(), par=14)
     chk.consume(res, st, props=("C04",))
@@ -809,6 +862,7 @@ def check_C05(chk):
     scens += fam_backing(chk.tier, chk.seed, "c05b", n // 3, 10)
     scens += fam_conc_disjoint(chk.tier, chk.seed, "c05c", 40 if chk.tier == "quick" else 600)
     scens += fam_exhaustive(chk.tier, "c05e", seed=chk.seed)
+    scens += fam_exhaustive_par(chk.tier, "c05p", seed=chk.seed)
     scens += fam_regress()
     res, st = Q.run_batch(scens, chk.wd, mode="crash", known=chk.known_tags(), par=14)
     chk.consume(res, st, props=("C05",))
@@ -825,6 +879,8 @@ def check_C06(chk):
     scens += fam_same_target(chk.tier, chk.seed, "c06s", 40 if chk.tier == "quick" else 600)
     scens += fam_conc(chk.tier, chk.seed, "c06b", n // 4, backing=True)
     scens += fam_cowread(chk.tier, chk.seed, "c06r", 30 if chk.tier == "quick" else 500)
+    scens += fam_exhaustive_par(chk.tier, "c06p", seed=chk.seed, seeds=(1, 2, 3))
+    scens += fam_regress()
     res, st = Q.run_batch(scens, chk.wd, known=chk.known_tags(), par=14)
     chk.consume(res, st, props=("C06", "C01", "C02"))
     for name, r in res.items():
@@ -1186,6 +1242,7 @@ def check_C07(chk):
     for s_ in gr:
         s_["sched_sweep"] = 40 if chk.tier == "quick" else 200
     scens += gr
+    scens += fam_exhaustive_par(chk.tier, "c07p", seed=chk.seed, sweep=6 if chk.tier == "quick" else 40)
     scens += fam_regress()
     res, st = Q.run_batch(scens, chk.wd, known=chk.known_tags(), par=14)
     chk.consume(res, st, props=("C07", "PANIC"))
@@ -1215,6 +1272,7 @@ def check_C18(chk):
         s["sample_flag"] = True
     scens += seqs
     scens += fam_exhaustive(chk.tier, "c18e", seed=chk.seed)
+    scens += fam_exhaustive_par(chk.tier, "c18p", seed=chk.seed, seeds=(1, 2, 3))
     scens += fam_regress()
     res, st = Q.run_batch(scens, chk.wd, known=chk.known_tags(), par=14)
     chk.consume(res, st, props=("C18",))
